@@ -171,6 +171,20 @@ fn check_points(setup: &Setup, obs: &mut Obs) -> Verdict {
         if out.printed != want { push(Violation::new(format!("interrupt|main|{}|output-differs", stype), format!("flag cleared before line {} of {}: printed {:?}, a run over exactly the first {} lines prints {:?}", i, total, out.printed.iter().take(4).collect::<Vec<_>>(), i, want.iter().take(4).collect::<Vec<_>>())), &mut vs); }
     }
 
+    // (a0) the flag is already cleared when execute() is entered (the interrupt arrived while the statement was prepared)
+    {
+        let out = run(setup, &setup.files, Arc::new(AtomicBool::new(false)), None, "z");
+        obs.evals += 1;
+        let (want, ref_ok) = reference(0, &mut refs);
+        if ref_ok {
+            if let Err(e) = &out.result { push(Violation::new(format!("interrupt|before-start|{}|error-reported", stype), e.show()), &mut vs); }
+            else {
+                if out.total_lines != 0 { push(Violation::new(format!("interrupt|before-start|{}|lines-consumed", stype), format!("the flag was cleared before execute() was called, yet {} of {} lines were consumed", out.total_lines, total)), &mut vs); }
+                if out.printed != want { push(Violation::new(format!("interrupt|before-start|{}|output-differs", stype), format!("the flag was cleared before execute() was called: printed {:?}, a run over no lines prints {:?}", out.printed.iter().take(3).collect::<Vec<_>>(), want.iter().take(3).collect::<Vec<_>>())), &mut vs); }
+            }
+        }
+    }
+
     // (b) flag cleared while the joined file is loaded
     if let Some(jp) = &setup.joined {
         let jn = std::fs::read(jp).map(|s| s.iter().filter(|b| **b == b'\n').count()).unwrap_or(0);
